@@ -2,6 +2,7 @@
 
 For every (input, profile): the formatted bytes are collected from ALL delivery modes
    stdin+--assume | stdin+-l | -f | -f -o OUT | -f X -o X | FILE (default suffix) | --prefix | --suffix | -F list | -F - |
+   second entry of a -F list | second positional file | second file of --no-backup (a guarded CRLF header goes first) |
    --replace | --replace --no-backup | --no-backup
 x language given by -l vs. taken from the extension
 x ALL subsets of the observer options {-p FILE, -L A, -s, -q, --dump-steps PFX, --debug-csv-format} the mode accepts
@@ -87,6 +88,19 @@ def run_mode(mode, d, cfgp, fname, src, lang, by_l, obs, env=None, cwd=None, abs
     elif mode == "-F-":
         stdin = (farg + "\n").encode()
         argv += ["-F", "-"]; outloc = fname + ".uncrustify"
+    elif mode in ("-F-after", "positional-after", "no-backup-after"):
+        # the file is the SECOND one of the invocation: another file (a guarded header with CRLF line ends and no final
+        # newline after its last directive) is formatted first by the same process
+        dname = "decoy." + fname.split(".")[-1]
+        open(os.path.join(d, dname), "wb").write(DECOY_SRC)
+        darg = os.path.join(d, dname) if abspath else dname
+        if mode == "-F-after":
+            open(os.path.join(d, "list.txt"), "w").write(darg + "\n" + farg + "\n")
+            argv += ["-F", "list.txt"]; outloc = fname + ".uncrustify"
+        elif mode == "positional-after":
+            argv += [darg, farg]; outloc = fname + ".uncrustify"
+        else:
+            argv += ["--no-backup", darg, farg]; outloc = fname
     elif mode == "replace":
         argv += ["--replace", farg]; outloc = fname
     elif mode == "replace-no-backup":
@@ -102,14 +116,19 @@ def run_mode(mode, d, cfgp, fname, src, lang, by_l, obs, env=None, cwd=None, abs
     return r, data, snap, outloc
 
 
+DECOY_SRC = b"#ifndef DECOY_H\r\n#define DECOY_H\r\nint decoy_value;\r\n/* INDENT-ish */\r\n#endif"
+
 EXPECTED_EXTRA = {
+    "-F-after": {"list.txt", "{f}.uncrustify", "decoy.{e}", "decoy.{e}.uncrustify"},
+    "positional-after": {"{f}.uncrustify", "decoy.{e}", "decoy.{e}.uncrustify"}, "no-backup-after": {"decoy.{e}"},
     "stdin-assume": set(), "stdin-l": set(), "-f": set(), "-f-o": {"OUT"}, "-f-o-same": set(), "positional": {"{f}.uncrustify"},
     "prefix": {"pfx/{f}"}, "suffix": {"{f}.out"}, "-F": {"list.txt", "{f}.uncrustify"}, "-F-": {"{f}.uncrustify"},
     "replace": {"{f}.unc-backup~", "{f}.unc-backup.md5~"}, "replace-no-backup": set(), "no-backup": set(),
 }
 FMODES = ("-f", "-f-o", "-f-o-same")
 ALLMODES = list(EXPECTED_EXTRA)
-INPLACE = ("-f-o-same", "replace", "replace-no-backup", "no-backup")
+INPLACE = ("-f-o-same", "replace", "replace-no-backup", "no-backup", "no-backup-after")
+AFTER = ("-F-after", "positional-after", "no-backup-after")
 
 
 def job(j):
@@ -146,7 +165,7 @@ def job(j):
             elif data != REF:
                 res["viol"].append((dict(w0, clause="formatted-bytes-differ-from-reference"), files))
             else:
-                want = {x.format(f=fname) for x in EXPECTED_EXTRA[mode]} | {fname}
+                want = {x.format(f=fname, e=fname.split(".")[-1]) for x in EXPECTED_EXTRA[mode]} | {fname}
                 if mode in ("replace", "-f-o-same"):
                     # the backup pair is written before formatting starts, whether or not the text changes
                     want = {fname, fname + ".unc-backup~", fname + ".unc-backup.md5~"}
@@ -161,7 +180,13 @@ def job(j):
                     res["viol"].append((dict(w0, clause="backup-is-not-the-original"), files))
             shutil.rmtree(d, True)
 
+        # the second-file modes need a decoy the configuration accepts on its own
+        dd = os.path.join(root, "dref"); os.mkdir(dd)
+        open(os.path.join(dd, "decoy." + EXT[lang]), "wb").write(DECOY_SRC)
+        dref_ok = run.run_argv([build.binary("hooks"), "-c", cfgp, "-l", lang, "-q", "-f", "decoy." + EXT[lang]], cwd=dd).rc == 0; res["runs"] += 1
         for mode in ALLMODES:
+            if mode in AFTER and not dref_ok:
+                continue
             allowed = OBS if mode in FMODES else [o for o in OBS if o not in ("-p", "--dump-steps")]
             subsets = [s for k in range(len(allowed) + 1) for s in itertools.combinations(allowed, k)
                        if "--debug-csv-format" not in s or "-p" in s]      # the CLI accepts --debug-csv-format only together with -p
